@@ -39,6 +39,7 @@ Inductive pc :=
 | PPtrScan (k : nat) (slot : option nat)    (* first loop of Type_Scan, at triple k:  t->cls is cls ? *)
 | PNameScan (k : nat) (slot : option nat)   (* second loop, at triple k: strcmp(t->name, name(cls)) is 0 ? t->cls = cls *)
 | PCacheWrite (i : nat) (v : option inst)   (* ((var* )self)[i] = inst; *)
+| PCacheReread (i : nat)                    (* return *slot;  -- the word is read again (Type_Cache_Fetch form) *)
 | PDone (v : option inst).                  (* return inst *)
 
 Definition opt_cls_eqb (a : option cls) (c : cls) : bool :=
@@ -57,6 +58,10 @@ Definition set_memo (k : nat) (c : cls) (ts : list triple) : list triple :=
 Section Model.
   Variable cn : cls -> string.             (* Type_Builtin_Name(cls) *)
   Variable wiring : list (nat * cls).      (* the Type_Cache_Entry(i, Class) lines, in order *)
+  (* two equivalent shapes of the cache entry that the translator recognises (tools/genx_disp.py):
+     skipnull : the scan result is stored only when it is not NULL  (`if (inst isnt NULL) { slots[i] = inst; }`)
+     reread   : the entry returns the cache word read once more     (`... *slot = Type_Scan(self, cls); return *slot;`) *)
+  Variable skipnull reread : bool.
 
   (* the chain of `if (cls is lit)` tests: first literal equal to cls decides the slot *)
   Fixpoint wired_slot (w : list (nat * cls)) (c : cls) : option nat :=
@@ -82,7 +87,7 @@ Section Model.
     | PCacheRead i =>
         match nth_error (cache T) i with
         | None => None
-        | Some (Some v) => Some (T, PDone (Some v))
+        | Some (Some v) => Some (T, if reread then PCacheReread i else PDone (Some v))
         | Some None => Some (T, PPtrScan 0 (Some i))
         end
     | PPtrScan k slot =>
@@ -100,9 +105,19 @@ Section Model.
                     else Some (T, PNameScan (S k) slot)
         end
     | PCacheWrite i v =>
-        if Nat.ltb i (List.length (cache T))
-        then Some (mkTrec (set_nth i (fun _ => v) (cache T)) (trips T), PDone v)
-        else None
+        let next := if reread then PCacheReread i else PDone v in
+        match v with
+        | None => if skipnull then Some (T, next)
+                  else if Nat.ltb i (List.length (cache T))
+                       then Some (mkTrec (set_nth i (fun _ => v) (cache T)) (trips T), next) else None
+        | Some _ => if Nat.ltb i (List.length (cache T))
+                    then Some (mkTrec (set_nth i (fun _ => v) (cache T)) (trips T), next) else None
+        end
+    | PCacheReread i =>
+        match nth_error (cache T) i with
+        | None => None
+        | Some w => Some (T, PDone w)
+        end
     | PDone v => Some (T, PDone v)
     end.
 
@@ -120,8 +135,8 @@ Section Model.
            end
     end.
 
-  (* enough for start, cache read, both loops (n+1 tests each), cache write *)
-  Definition fuel_for (T : trec) : nat := 2 * List.length (trips T) + 5.
+  (* enough for start, cache read, both loops (n+1 tests each), cache write, cache re-read *)
+  Definition fuel_for (T : trec) : nat := 2 * List.length (trips T) + 6.
 
   Definition lookup (k : kind) (c : cls) (T : trec) : rres := run (fuel_for T) c T (PStart k).
 
@@ -235,6 +250,14 @@ End Model.
 Definition cold_type (ncache : nat) (decl : list (string * inst)) : trec :=
   mkTrec (repeat None ncache) (map (fun d => mkTriple None (fst d) (snd d)) decl).
 
+(* a run-time type right after Type_Alloc + Type_New: the block is zeroed by the allocator (calloc) or holds arbitrary
+   previous contents `garbage` (a recycled block: the cache words of a deleted type), of which Type_New clears the
+   first `cleared` words; the memo words are written NULL with each triple *)
+Definition fresh_type (zeroed : bool) (cleared ncache : nat) (garbage : list (option inst))
+                      (decl : list (string * inst)) : trec :=
+  mkTrec (if zeroed then repeat None ncache else repeat None (Nat.min cleared ncache) ++ skipn cleared garbage)
+         (map (fun d => mkTriple None (fst d) (snd d)) decl).
+
 (* ---- the declaration seen through class IDENTITIES (what the programmer wrote: Instance(Class, ...)) ---- *)
 Fixpoint decl_lookup (dl : list (cls * inst)) (c : cls) : option inst :=
   match dl with
@@ -246,12 +269,12 @@ Definition type_of_decl (cn : cls -> string) (ncache : nat) (dl : list (cls * in
   cold_type ncache (map (fun d => (cn (fst d), snd d)) dl).
 
 (* ---- sequential histories: a list of lookups run one after the other ---- *)
-Fixpoint run_history (cn : cls -> string) (wiring : list (nat * cls)) (T : trec) (h : list (kind * cls))
+Fixpoint run_history (cn : cls -> string) (wiring : list (nat * cls)) (skipnull reread : bool) (T : trec) (h : list (kind * cls))
   : option (trec * list (option inst)) :=
   match h with
   | [] => Some (T, [])
-  | (k, c) :: r => match lookup cn wiring k c T with
-                   | ROk T' v => match run_history cn wiring T' r with
+  | (k, c) :: r => match lookup cn wiring skipnull reread k c T with
+                   | ROk T' v => match run_history cn wiring skipnull reread T' r with
                                  | Some (T'', vs) => Some (T'', v :: vs)
                                  | None => None
                                  end
